@@ -2836,6 +2836,9 @@ lyd_path(const struct lyd_node *node, LYD_PATH_TYPE pathtype, char *buffer, size
     if (buffer) {
         LY_CHECK_ARG_RET(LYD_CTX(node), buflen > 1, NULL);
         is_static = 1;
+
+        /* always return a valid string, even if not even the first node fits */
+        buffer[0] = '\0';
     } else {
         buflen = 0;
     }
